@@ -4,7 +4,7 @@ import json
 
 from hypothesis import strategies as st
 
-from vlib.core import Violation, Out
+from vlib.core import Violation, Out, HarnessError
 from vlib.runner import HypStage
 from vlib import mw, spec
 
@@ -147,10 +147,25 @@ def run_case(c):
                                "keyId": mw.K_AUTH})
         if r0.get("errorcode") not in (-905, -2):
             raise Violation("pending-setup", repr(r0))
+    if c.get("warm"):
+        tpl = (TEMPLATES_V5 if mode == "v5" else TEMPLATES_V1).get(c["tpl"])
+        if tpl is not None:
+            w.adv_plan = {"final": "total"}
+            r0 = p.handle_request(copy.deepcopy(tpl))
+            if r0.get("errorcode") not in (0, 1):
+                raise HarnessError("nominal %s/%s not served: %r" % (mode, c["tpl"], r0))
     mark = len(w.log)
     line = json.dumps(req)
     rep = p.handle_request(json.loads(line))
     mw.check_sim(w)
+    if c.get("warm") and isinstance(rep, dict) and rep.get("errorcode", 0) < 0 and \
+            not w.apdus(mark):
+        # refused without a word to the device: the very same request again fares the same
+        rep_again = p.handle_request(json.loads(line))
+        if rep_again != rep or w.apdus(mark):
+            raise Violation("refusal-not-repeatable", "mode %s request %s: first %r (no "
+                            "exchange), sent again: %r, %d APDUs" % (
+                                mode, line[:300], rep, rep_again, len(w.apdus(mark))))
     if not isinstance(rep, dict) or type(rep.get("errorcode")) is not int:
         raise Violation("reply-shape", "request %s -> %r" % (line[:300], rep))
     apdus = w.apdus(mark)
@@ -166,6 +181,8 @@ def run_case(c):
     labels = ["mode:" + mode, "tpl:" + c["tpl"]]
     if c.get("pending"):
         labels.append("reconnection-pending")
+    if c.get("warm"):
+        labels.append("after-the-nominal-request")
     for m in c["muts"]:
         labels.append("mut:" + m.split(":")[0])
     if amb:
@@ -198,6 +215,23 @@ def _documented_code(mode, req, rep, line):
 
 
 CROSS_POOL = [None, True, False, 0, 1, -1, 1.0, 1.5, "", "aa", [], {}, [1], {"a": 1}]
+
+
+class WarmSingleMutations:
+    """The single-mutation enumeration once more, each request arriving right after the
+    un-mutated request of its template was served by the same manager, and - when refused - sent
+    a second time: what an earlier request left behind does not let a defective one through."""
+
+    def __init__(self, tier=None, seed=None):
+        self.sm = SingleMutations()
+
+    def __len__(self):
+        return len(self.sm)
+
+    def __getitem__(self, i):
+        c = dict(self.sm[i])
+        c["warm"] = True
+        return c
 
 
 class PendingSingleMutations:
@@ -268,7 +302,7 @@ REQUIRED_LABELS = {
         "verdict:-904", "verdict:-101", "verdict:-102", "verdict:-103", "verdict:-204",
         "verdict:-205", "verdict:-301", "verdict:-2", "verdict:-666", "mut:delete",
         "mut:replace-int", "mut:replace-str", "mut:replace-list", "mut:replace-dict",
-        "mut:addkey", "ambiguous", "reconnection-pending"] + ["tpl:" + n for n in TEMPLATES_V5]
+        "mut:addkey", "ambiguous", "reconnection-pending", "after-the-nominal-request"] + ["tpl:" + n for n in TEMPLATES_V5]
     for t in ("quick", "thorough")}
 
 
@@ -285,6 +319,9 @@ def stages(tier):
     from vlib.runner import EnumStage
     return [EnumStage("single-mutations", SingleMutations, run_case,
                       exhaustive={"quick": True, "thorough": True},
+                      budget_s={"quick": 100, "thorough": 300}),
+            EnumStage("single-mutations-after-the-nominal-request", WarmSingleMutations,
+                      run_case, exhaustive={"quick": True, "thorough": True},
                       budget_s={"quick": 100, "thorough": 300}),
             EnumStage("single-mutations-reconnection-pending", PendingSingleMutations, run_case,
                       exhaustive={"quick": True, "thorough": True},
